@@ -70,7 +70,13 @@ DESIGN_RANGES = [(0, 1000), (20, 200), (0, 1), (-100, 100), (34, 194), (0, 8)]
 INFO_NUMBER = ["ascender", "descender", "xHeight", "capHeight", "postscriptUnderlinePosition",
                "postscriptUnderlineThickness"]
 INFO_INTEGER = ["openTypeOS2TypoAscender", "openTypeOS2TypoDescender", "openTypeHheaAscender",
-                "openTypeHheaDescender", "openTypeOS2WinAscent", "openTypeOS2TypoLineGap"]
+                "openTypeHheaDescender", "openTypeOS2WinAscent", "openTypeOS2TypoLineGap",
+                # (more of the integer attributes fontMath interpolates)
+                "openTypeHheaLineGap", "openTypeHheaCaretOffset", "openTypeOS2StrikeoutSize",
+                "openTypeOS2StrikeoutPosition", "openTypeOS2SubscriptYSize",
+                "openTypeVheaVertTypoAscender", "openTypeOS2WinDescent",
+                "openTypeHeadLowestRecPPEM"]
+NON_NEGATIVE_INFO = ("openTypeOS2WinAscent", "openTypeOS2WinDescent")
 INFO_LIST = ["postscriptBlueValues", "postscriptStemSnapH"]
 
 
@@ -422,9 +428,12 @@ def make_info(rng, mode, os2_classes):
     for a in INFO_INTEGER:
         if rng.random() < 0.5:
             info[a] = rng.choice([900, 800, -200, -250, 1000, 0, 90])
-    if "openTypeOS2WinAscent" in info:
-        # non-negative by specification, also where a corner is extrapolated
-        info["openTypeOS2WinAscent"] = rng.choice([800, 900, 1000])
+    for a in NON_NEGATIVE_INFO:
+        if a in info:
+            # non-negative by specification, also where a corner is extrapolated
+            info[a] = rng.choice([800, 900, 1000])
+    if "openTypeHeadLowestRecPPEM" in info:
+        info["openTypeHeadLowestRecPPEM"] = rng.choice([20, 24, 30])
     if rng.random() < 0.5:
         info["postscriptBlueValues"] = [-10, 0, 500, 510, 700, 712]
     if rng.random() < 0.3:
@@ -446,9 +455,11 @@ def perturb_info(rng, info, mode):
             out[a] = out[a] + _delta(rng, mode, 30)
     for a in INFO_INTEGER:
         if a in out:
-            out[a] = out[a] + rng.randint(-40, 40)
-    if "openTypeOS2WinAscent" in out:
-        out["openTypeOS2WinAscent"] = abs(out["openTypeOS2WinAscent"])
+            out[a] = out[a] + (rng.randint(-6, 6) if a == "openTypeHeadLowestRecPPEM"
+                               else rng.randint(-40, 40))
+    for a in NON_NEGATIVE_INFO:
+        if a in out:
+            out[a] = abs(out[a])
     for a in INFO_LIST:
         if a in out:
             out[a] = [v + rng.randint(-6, 6) for v in out[a]]
